@@ -234,6 +234,8 @@ const (
 	ShapeOrAndOr     // OR under AND under OR
 	ShapeAndChainXOr // left-nested AND chain times an OR
 	NumShapes
+	// ShapeLongChain is not drawn by default (callers opt in): 30..120 leaves, one dominant operator, random nesting side
+	ShapeLongChain = NumShapes
 )
 
 // RandomTree builds a tree with nLeaves leaves over a pool of k terms (leaf indices 0..k-1, every
@@ -273,6 +275,21 @@ func RandomTree(r *Rand, shape, nLeaves, k int) *Node {
 		return Bin(op(), build(l), build(n-l))
 	}
 	switch shape {
+	case ShapeLongChain:
+		dom := op()
+		t := next()
+		for i := 1; i < nLeaves; i++ {
+			o := dom
+			if r.Chance(1, 12) {
+				o = op()
+			}
+			if r.Chance(1, 2) {
+				t = Bin(o, t, next())
+			} else {
+				t = Bin(o, next(), t)
+			}
+		}
+		return t
 	case ShapeLeftChain:
 		t := next()
 		for i := 1; i < nLeaves; i++ {
